@@ -1,6 +1,7 @@
 package main
 
 import (
+	"encoding/json"
 	"context"
 	"errors"
 	"fmt"
@@ -178,6 +179,10 @@ type e2ePlan struct {
 	faultCode, faultDesc               string
 	faultClass                         string
 	faultVariant                       int
+	// reqObj: the request also carries a request object signed by the client ("" none). "with-state": the object
+	// carries the state (the query carries another one, which the object overrides); "without-state": the object has
+	// no state claim and the state travels as plain query parameter - either way the client sent exactly p.state
+	reqObj string
 }
 
 func planE2E(run *ev.Run, j int) e2ePlan {
@@ -212,6 +217,9 @@ func planE2E(run *ev.Run, j int) e2ePlan {
 		}
 	}
 	p.scenario = pickWeighted(r, scenarios, scenarioWeights)
+	if p.scenario != "bad-hint" {
+		p.reqObj = pick(r, "", "", "", "", "with-state", "without-state")
+	}
 	if strings.HasPrefix(p.scenario, "fault") {
 		p.faultMethod = "CreateAuthRequest"
 		if p.scenario == "fault-callback" {
@@ -292,6 +300,22 @@ func e2eCase(run *ev.Run, j int, router int) {
 		ap.Scope = ""
 	case "bad-hint":
 		ap.Extra = url.Values{"id_token_hint": {"not.a.token"}}
+	}
+	if p.reqObj != "" {
+		k := opdrv.ClientKey("rp-c11")
+		w.Store.AddClientKey("rp", k)
+		claims := map[string]any{"iss": "rp", "aud": []string{opdrv.DefaultIssuer}, "client_id": "rp", "response_type": string(p.rt), "scope": ap.Scope}
+		if p.reqObj == "with-state" && p.state == "" {
+			p.reqObj = "without-state" // an empty state claim overrides nothing
+		}
+		if p.reqObj == "with-state" {
+			claims["state"] = p.state
+			ap.State = "state-of-the-query-overridden-by-the-object"
+		}
+		b, _ := json.Marshal(claims)
+		ap.Extra = url.Values{"request": {keys.SignAs(k, jose.RS256, k.Kid, b, "JWT")}}
+		run.Count("e2e_request_object", p.reqObj)
+		run.Observed("e2e:request-object:" + p.reqObj)
 	}
 	mkFault := func() error {
 		switch p.faultKind {
